@@ -21,13 +21,13 @@ Proof. exact RootCert_Proofs.irange_sound. Qed.
 Print Assumptions irange_sound.
 
 (** verdicts of the leftmost-root search *)
-Theorem first_root_sound : forall depth cs lo hi,
+Theorem first_root_sound : forall depth cs lo hi, (lo <= hi)%Q ->
   match first_root depth cs lo hi with
   | NoRoot => forall x, Q2R lo <= x <= Q2R hi -> reval cs x <> 0
   | Maybe a b => (lo <= a)%Q /\ (a <= b)%Q /\ (b <= hi)%Q /\
                  forall x, Q2R lo <= x < Q2R a -> reval cs x <> 0
   end.
-Proof. exact RootCert_Proofs.first_root_sound. Qed.
+Proof. exact RootCert_Proofs.first_root_sound'. Qed.
 Print Assumptions first_root_sound.
 
 (** a sign change certifies a real root inside *)
